@@ -9,6 +9,7 @@ import os
 import re
 
 import hlslread
+import nagarun
 import vcheck
 
 M32 = 0xFFFFFFFF
@@ -344,3 +345,145 @@ def compare(prog, inp, ir_res, hl_res):
                 return "mismatch", "buffer %s (global %d %s) byte offset %d: WGSL/IR 0x%08X, HLSL 0x%08X" % (
                     reg, gi, prog.ir["GlobalVariables"][gi]["Name"], i, w, g)
     return "agree", ""
+
+
+# ------------------------------------------------------------------ batch validation
+
+def run_models_parallel(exe, jobs, workers=None, timeout=1800):
+    """run a generic extracted tool over many jobs, split over processes"""
+    from concurrent.futures import ThreadPoolExecutor
+    if not jobs:
+        return []
+    workers = workers or max(1, min(vcheck.NCPU, 8))
+    n = len(jobs)
+    size = max(1, (n + workers - 1) // workers)
+    parts = [jobs[i:i + size] for i in range(0, n, size)]
+    with ThreadPoolExecutor(len(parts)) as ex:
+        res = list(ex.map(lambda p: vcheck.run_model(exe, p, timeout=timeout), parts))
+    out = []
+    for r in res:
+        out.extend(r)
+    return out
+
+
+IR_FUEL = 4000
+HLSL_FUEL = 40000
+
+
+def validate(tools, irrun, hlslrun, programs, optnames, n_inputs, rng, want_validate=True):
+    """programs: [(name, wgsl)].  Returns (stats, records) where records are dicts with verdict != agree."""
+    stats = {"programs": 0, "compiled": 0, "entry_points": 0, "hlsl_entry_points_parsed": 0, "runs": 0, "agree": 0,
+             "mismatch": 0, "hlsl_ub": 0, "out_of_fragment": 0, "ir_undefined": 0, "fuel": 0, "special_float_only": 0,
+             "not_compiled": 0, "reader_out_of_fragment_items": 0, "inputs_unsupported": 0}
+    jobs = []
+    for pi, (name, src) in enumerate(programs):
+        for on in optnames:
+            jobs.append({"id": "%d/%s" % (pi, on), "src": src, "want": ["ir", "validate"], "opts": OPTION_SETS[on]})
+    res = nagarun.parallel_batches(tools["hlsldrive"], "compile", jobs, per_job_timeout=30.0, chunk=16)
+    progs = {}
+    records = []
+    oof_reasons = {}
+    for pi, (name, src) in enumerate(programs):
+        stats["programs"] += 1
+        for on in optnames:
+            r = res.get("%d/%s" % (pi, on)) or {}
+            if "hlsl" not in r or r.get("validate"):
+                stats["not_compiled"] += 1
+                continue
+            stats["compiled"] += 1
+            try:
+                progs[(pi, on)] = Program(name, on, r)
+            except Exception as e:           # reader crash = reader bug: surface it
+                records.append({"verdict": "reader_crash", "program": name, "opt": on, "detail": repr(e), "src": src,
+                                "hlsl": r.get("hlsl")})
+    # inputs from the first option set's IR (the IR handed to the backend is the same for every option set)
+    ir_jobs, ir_keys = [], []
+    hl_jobs, hl_keys = [], []
+    inputs = {}
+    for pi, (name, src) in enumerate(programs):
+        base = None
+        for on in optnames:
+            if (pi, on) in progs:
+                base = progs[(pi, on)]
+                break
+        if base is None:
+            continue
+        for epi, ep in base.compute_entry_points():
+            stats["entry_points"] += 1
+            for k in range(n_inputs):
+                mode = ["pool", "small", "pool", "small", "pool"][k % 5]
+                try:
+                    inp = make_inputs(base, epi, ep, rng.fork("%s/%d/%d" % (name, epi, k)), mode)
+                except Unsupported as e:
+                    stats["inputs_unsupported"] += 1
+                    oof_reasons["inputs: " + str(e)] = oof_reasons.get("inputs: " + str(e), 0) + 1
+                    break
+                inputs[(pi, epi, k)] = inp
+                ir_jobs.append(ir_job(base, epi, inp, IR_FUEL))
+                ir_keys.append((pi, epi, k))
+            for on in optnames:
+                pr = progs.get((pi, on))
+                if pr is None:
+                    continue
+                hname = pr.hlsl_entry_name(ep["Name"])
+                if hname in hlslread.entry_points(pr.ast):
+                    stats["hlsl_entry_points_parsed"] += 1
+                stats["reader_out_of_fragment_items"] += len(pr.ast["out_of_fragment"])
+                for k in range(n_inputs):
+                    if (pi, epi, k) in inputs:
+                        hl_jobs.append(hlsl_job(pr, ep, inputs[(pi, epi, k)], HLSL_FUEL))
+                        hl_keys.append((pi, on, epi, k))
+    ir_res = dict(zip(ir_keys, run_models_parallel(irrun, ir_jobs)))
+    hl_res = dict(zip(hl_keys, run_models_parallel(hlslrun, hl_jobs)))
+    retry = []
+    for (pi, on, epi, k), hr in hl_res.items():
+        pr = progs[(pi, on)]
+        inp = inputs[(pi, epi, k)]
+        irr = ir_res[(pi, epi, k)]
+        stats["runs"] += 1
+        verdict, detail = compare(pr, inp, irr, hr)
+        if verdict in ("mismatch", "hlsl_ub") and has_special_float([inp["ir_globals"], inp["cbuffers"]]):
+            retry.append((pi, on, epi, k, verdict, detail))
+            continue
+        stats[verdict] += 1
+        if verdict == "out_of_fragment":
+            oof_reasons[detail[:90]] = oof_reasons.get(detail[:90], 0) + 1
+        if verdict in ("mismatch", "hlsl_ub"):
+            records.append(record(pr, programs[pi][1], epi, k, inp, verdict, detail, irr, hr))
+        elif verdict != "agree":
+            records.append({"verdict": verdict, "program": pr.name, "opt": pr.optname, "ep": epi, "input": k, "detail": detail})
+    # WGSL does not define results that depend on NaN / infinity: re-run those inputs with finite floats
+    if retry:
+        r_ir, r_hl, meta = [], [], []
+        for pi, on, epi, k, verdict, detail in retry:
+            pr = progs[(pi, on)]
+            inp = dict(inputs[(pi, epi, k)])
+            inp["ir_globals"] = despecial(inp["ir_globals"])
+            inp["cbuffers"] = despecial(inp["cbuffers"])
+            bufs = {}
+            for gi, reg, th, ro in inp["storage"]:
+                bufs[reg], _m = pr.types.to_bytes(th, inp["ir_globals"][gi])
+            inp["buffers"] = bufs
+            ep = pr.ir["EntryPoints"][epi]
+            r_ir.append(ir_job(pr, epi, inp, IR_FUEL))
+            r_hl.append(hlsl_job(pr, ep, inp, HLSL_FUEL))
+            meta.append((pi, on, epi, k, inp, verdict, detail))
+        ir2 = run_models_parallel(irrun, r_ir)
+        hl2 = run_models_parallel(hlslrun, r_hl)
+        for (pi, on, epi, k, inp, v0, d0), irr, hr in zip(meta, ir2, hl2):
+            pr = progs[(pi, on)]
+            verdict, detail = compare(pr, inp, irr, hr)
+            if verdict == "agree":
+                stats["special_float_only"] += 1
+                continue
+            stats[verdict] += 1
+            if verdict in ("mismatch", "hlsl_ub"):
+                records.append(record(pr, programs[pi][1], epi, k, inp, verdict, detail, irr, hr))
+    stats["out_of_fragment_reasons"] = dict(sorted(oof_reasons.items(), key=lambda x: -x[1])[:12])
+    return stats, records
+
+
+def record(pr, src, epi, k, inp, verdict, detail, irr, hr):
+    return {"verdict": verdict, "program": pr.name, "opt": pr.optname, "ep": epi, "input": k, "detail": detail, "src": src,
+            "hlsl": pr.hlsl, "inputs": {"globals": inp["ir_globals"], "args": inp["args"]},
+            "ir_result": irr if not irr.get("ok") else {"ok": True}, "hlsl_result": {k2: v for k2, v in hr.items() if k2 != "globals"}}
